@@ -160,7 +160,9 @@ def _operand(g, dt, shape, kinds=("input",) * 8 + ("const", "const", "mid", "sym
     if kind in ("sym", "unk"):
         dims = list(shape)
         i = g.draw(st.integers(0, len(dims) - 1))
-        dims[i] = "N" if kind == "sym" else None
+        # one symbol per SIZE: two operands of a host must not declare the same symbol for dims of different sizes (a rule may rely on
+        # equal symbols meaning equal sizes)
+        dims[i] = f"N{shape[i]}" if kind == "sym" else None
         return g.add_input(dt, shape, style=style, dims=dims), kind
     v = g.add_input(dt, shape, style=style)
     if kind == "mid":
